@@ -57,7 +57,7 @@ class Platform:
         Return a boolean stating if this include file should be
         processed or skipped.
         """
-        return fn not in self._skip_includes
+        return os.path.realpath(fn) not in self._skip_includes
 
     def is_defined(self, identifier):
         """
